@@ -65,6 +65,13 @@ def tsqr(x, compute_svd=False, finalize_svd=True):
         https://arxiv.org/abs/1301.1071
     """
 
+    if any(c < x.shape[1] for c in x.chunks[0]):
+        raise ValueError(
+            "tsqr requires every row chunk to have at least as many rows as the array has columns. "
+            f"Row chunks: {x.chunks[0]}, number of columns: {x.shape[1]}. "
+            "Consider rechunking so that each row chunk is taller than it is wide."
+        )
+
     # follows Algorithm 2 from Benson et al, modified for SVD
     Q1, R1 = _qr_first_step(x)
 
